@@ -259,7 +259,18 @@ def profile_orders(units, rng, full):
     return [list(x) for x in dict.fromkeys(map(tuple, orders))]
 
 
-async def drive_real(t, mode, pidx, orders, only_features=None):
+STREAM = ["Audio", "Metadata", "PushUpdater", "RemoteControl"]     # what RAOP takes over during stream_file
+
+
+def holder_scenarios(rng, thorough):
+    """Takeover states under which the members are invoked: none; RAOP holding what it takes over while
+    streaming; AirPlay holding RemoteControl (play_url); a protocol holding every interface."""
+    sc = [None, ("RAOP", STREAM), ("AirPlay", ["RemoteControl"])]
+    sc += [(p, list(RELAYED)) for p in (PROTOS if thorough else [rng.choice(PROTOS)])]
+    return sc
+
+
+async def drive_real(t, mode, pidx, orders, only_features=None, scenarios=(None,)):
     """One device profile.  mode 'real': the real Features objects answer; mode 'worst': Features stubs that
     report every feature as Available (the over-approximation of the model made concrete).  For every order
     (list of unit ids) a device object is assembled from the real objects, every feature is asked and every
@@ -289,6 +300,7 @@ async def drive_real(t, mode, pidx, orders, only_features=None):
         for order in orders:
             atv = await c01.build_facade([off[i] for i in order])
             gate = atv.features.in_state(FeatureState.Available, FeatureName.PlayUrl)
+            recs_here = []
             for f in t["features"]:
                 if only_features and f["name"] not in only_features:
                     continue
@@ -297,9 +309,16 @@ async def drive_real(t, mode, pidx, orders, only_features=None):
                 asked = [e[0] for e in log if e[1] == "Features"]
                 rec = {"profile": prof[0], "pidx": pidx, "order": order, "added": [label[i] for i in order],
                        "feature": f["name"], "index": f["index"], "state": info.state.name,
-                       "asked": asked, "gate": gate, "calls": []}
-                if info.state != FeatureState.Unsupported:
-                    for (i, m) in dict.fromkeys(map(tuple, f["members"])):
+                       "asked": asked, "gate": gate, "calls": [], "members": list(dict.fromkeys(map(tuple, f["members"])))}
+                recs_here.append(rec)
+            # every member of every reported feature is INVOKED through the device object, under every
+            # takeover scenario; the call must reach some protocol's implementation
+            for sc in scenarios:
+                tok = atv.takeover(P(sc[0]), *[iface_cls(i) for i in sc[1]]) if sc else None
+                for rec in recs_here:
+                    if rec["state"] == "Unsupported":
+                        continue
+                    for (i, m) in rec["members"]:
                         base = iface_cls(i)
                         kind = dict(public_members(base))[m]
                         del log[:]
@@ -307,32 +326,46 @@ async def drive_real(t, mode, pidx, orders, only_features=None):
                         called = [e[0] for e in log if e[1] != "Features"]
                         relay_ok = None
                         if exc == "NotSupportedError" and not called:
-                            # was it the relayer (nothing implements it) or a gate in front of it?
+                            # does the relayer find an implementation when asked directly?
                             try:
                                 atv._interfaces[base].relay(m)
                                 relay_ok = True
                             except Exception as ex:  # noqa
                                 relay_ok = type(ex).__name__
-                        rec["calls"].append({"iface": i, "member": m, "called": called, "exc": exc, "relay": relay_ok})
-                out.append(rec)
+                        rec["calls"].append({"iface": i, "member": m, "holder": list(sc) if sc else None,
+                                             "take": c01.holder_of(atv, i), "called": called, "exc": exc, "relay": relay_ok})
+                if tok:
+                    tok()
+            out += recs_here
     finally:
         await cleanup()
     return out
 
 
 def judge(rec):
-    """The property text on one (connected set, feature): reported => every member is routed to an
-    implementation, not refused because nothing implements it."""
+    """The property text on one (profile, added SetupData, feature): reported => invoking every member the
+    feature stands for reaches an implementation, under every takeover holder; NotSupportedError raised by
+    the facade / relayer is the violation.  Returns [(key, what, call)]."""
     bad = []
     for c in rec["calls"]:
+        where = "device profile %s, SetupData added %s, takeover %s: features reports %s as %s" % (
+            rec["profile"], rec["added"], c["holder"], rec["feature"], rec["state"])
         if c["exc"] == "NotSupportedError" and not c["called"]:
+            gated = (c["iface"], c["member"]) == ("Stream", "play_url") and not rec["gate"]
+            if c["relay"] is True and gated:
+                continue       # documented feature gate of play_url: PlayUrl is not Available; an implementation exists
             if c["relay"] is True:
-                continue       # an implementation exists and is routed to; the facade's own feature gate refused
-            bad.append(("C13:not-backed:%s" % rec["feature"],
-                        "device profile %s, SetupData added %s: features reports %s as %s, but %s.%s fails with NotSupportedError: no set-up protocol implements it"
-                        % (rec["profile"], rec["added"], rec["feature"], rec["state"], c["iface"], c["member"])))
+                bad.append(("C13:invoke:not-supported:%s" % rec["feature"],
+                            "%s and a set-up protocol implements %s.%s, but calling it through the device object fails with NotSupportedError"
+                            % (where, c["iface"], c["member"]), c))
+            else:
+                bad.append(("C13:not-backed:%s" % rec["feature"],
+                            "%s, but %s.%s fails with NotSupportedError: no set-up protocol implements it"
+                            % (where, c["iface"], c["member"]), c))
         elif c["exc"] is None and not c["called"] and not (c["iface"] == "PushUpdater"):
-            bad.append(("C13:not-routed:%s" % rec["feature"], "%s.%s was executed by nobody" % (c["iface"], c["member"])))
+            bad.append(("C13:invoke:not-routed:%s" % rec["feature"], "%s but %s.%s was executed by nobody" % (where, c["iface"], c["member"]), c))
+        elif c["exc"] not in (None, "NotSupportedError"):
+            bad.append(("C13:invoke:unexpected-exception:%s" % rec["feature"], "%s but %s.%s raised %s" % (where, c["iface"], c["member"], c["exc"]), c))
     return bad
 
 
@@ -401,7 +434,9 @@ def run(ctx):
                 "quick tier: complete for one profile per distinct table set, 5 sampled orders for the others; x every "
                 "FeatureName: answer of features.get_feature, and every member of every reported feature called through the "
                 "device object; once with the real Features objects, once with Features stubs reporting everything "
-                "Available (worst case of the dynamic states); (b) random tables "
+                "Available (worst case of the dynamic states); takeover scenarios for the invocations: none, RAOP holding "
+                "Audio/Metadata/PushUpdater/RemoteControl (stream_file), AirPlay holding RemoteControl (play_url), a protocol "
+                "holding every interface (thorough: each protocol); (b) random tables "
                 "with stub Features/PushUpdater objects incl. falsy and missing Features objects and duplicate protocols. "
                 "non-trivial = the feature is reported (state other than Unsupported); distinct by canonical case")
     if t is None:
@@ -412,8 +447,8 @@ def run(ctx):
         r = d.get("replay", d)
         ctx.count("corpus")
         ctx.case(("corpus", fname), nontrivial=True)
-        for key, what in vloop.run(replay_one, r, t, False):
-            ctx.violation(key, what, r)
+        for key, what, call in vloop.run(replay_one, r, t, False):
+            ctx.violation(key, what, dict(r, call=call))
     # ---------------------------------------------------------------- (a) real objects
     fcases, fmeta, icases, imeta = [], [], [], []
     sigs = {}
@@ -428,7 +463,7 @@ def run(ctx):
         for mode in ("real", "worst"):
             if mode == "worst" and not full:
                 continue
-            recs = vloop.run(drive_real, t, mode, pidx, orders)
+            recs = vloop.run(drive_real, t, mode, pidx, orders, None, holder_scenarios(ctx.rng, ctx.thorough))
             for rec in recs:
                 ctx.traces += 1
                 reported = rec["state"] != "Unsupported"
@@ -437,9 +472,10 @@ def run(ctx):
                                  "state": rec["state"], "asked": rec["asked"], "calls": rec["calls"]} if reported else None)
                 ctx.count("%s:%s" % (mode, rec["state"]))
                 ctx.count("profile:" + rec["profile"])
-                for key, what in judge(rec):
+                for key, what, call in judge(rec):
                     ctx.violation(key, what, {"kind": "real", "mode": mode, "profile": rec["profile"], "added": rec["added"],
-                                              "feature": rec["feature"], "state": rec["state"], "calls": rec["calls"]})
+                                              "holder": call["holder"], "feature": rec["feature"], "state": rec["state"],
+                                              "call": call})
                 obs = fres_of(rec["asked"], rec["state"])
                 if obs is None:
                     ctx.tie_broken("correspondence:features-unexpected-observation", json.dumps(rec))
@@ -454,15 +490,19 @@ def run(ctx):
                     if cr is None:
                         ctx.tie_broken("correspondence:invoke-unexpected-observation", json.dumps(rec))
                         continue
-                    icases.append("(%d, %s, %s, %s%%string, %s, %s)" % (pidx, ids, ICOQ[c["iface"]], coq_str(c["member"]),
-                                                                 common.cbool(rec["gate"]), cr))
+                    ctx.count("holder:" + (c["holder"][0] + ("*" if len(c["holder"][1]) > 4 else "") if c["holder"] else "none"))
+                    icases.append("(%d, %s, %s, %s, %s%%string, %s, %s)" % (pidx, ids, coq_protos(c["take"]), ICOQ[c["iface"]],
+                                                                     coq_str(c["member"]), common.cbool(rec["gate"]), cr))
     ctx.exhaustive = bool(ctx.thorough)
     ctx.note("real objects driven %.1fs" % (time.time() - ctx.t0))
     funiq = list(dict.fromkeys(fcases))
     c01.run_cases_in_coq(ctx, "features", HEADER, "nat * list nat * feature * fres", "check_real_feature",
                          funiq, lambda b: {"case": funiq[b], "profiles": ctx.extra["profiles"]}, per=4000)
     uniq = list(dict.fromkeys(icases))
-    c01.run_cases_in_coq(ctx, "invoke", HEADER, "nat * list nat * iface * string * bool * callres", "check_real_invoke",
+    ctx.count("invoke-cases-distinct", len(uniq))
+    if not ctx.thorough and len(uniq) > 20000:
+        uniq = ctx.rng.sample(uniq, 20000)      # the oracle judged every call; the model comparison is sampled
+    c01.run_cases_in_coq(ctx, "invoke", HEADER, "nat * list nat * list proto * iface * string * bool * callres", "check_real_invoke",
                          uniq, lambda b: {"case": uniq[b], "profiles": ctx.extra["profiles"]}, per=4000)
     ctx.note("real objects compared %.1fs" % (time.time() - ctx.t0))
     # ---------------------------------------------------------------- (b) arbitrary tables
@@ -505,14 +545,15 @@ async def replay_one(r, t, verbose=True):
     """Re-run one replay dict {profile, added: ["src>proto", ...], feature, mode}; returns list of (key, what)."""
     names = [pr["name"] for pr in t["profiles"]]
     if r.get("profile") not in names:
-        return [("C13:replay:unknown-profile", str(r.get("profile")))]
+        return [("C13:replay:unknown-profile", str(r.get("profile")), None)]
     pidx = names.index(r["profile"])
     lab = {"%s>%s" % (u["src"], u["proto"]): u["id"] for u in t["profiles"][pidx]["units"]}
     order = [lab[x] for x in r["added"] if x in lab]
     if len(order) != len(r["added"]):
         if verbose:
             print("profile %s no longer yields %s" % (r["profile"], [x for x in r["added"] if x not in lab]))
-    recs = await drive_real(t, r.get("mode", "real"), pidx, [order], [r["feature"]])
+    sc = [tuple(r["holder"])] if r.get("holder") else [None]
+    recs = await drive_real(t, r.get("mode", "real"), pidx, [order], [r["feature"]], sc)
     out = []
     for rec in recs:
         if verbose:
@@ -531,5 +572,5 @@ def replay(ctx, path):
     t = vloop.run(c01.collect, False)
     t["profiles"] = vloop.run(collect_profiles)
     v = vloop.run(replay_one, r, t)
-    print("property-errors=%s" % v)
+    print("property-errors=%s" % [x[:2] for x in v])
     return 1 if v else 0
